@@ -818,7 +818,7 @@ impl Gen {
     // ---------------------------------------------------------------- statements
     pub fn gen_stmt(&mut self, d: u32) -> Expr {
         self.budget -= 1;
-        let choice = if self.budget <= 0 { self.rng.below(4) } else { self.rng.below(32) };
+        let choice = if self.budget <= 0 { self.rng.below(4) } else { self.rng.below(33) };
         match choice {
             0 | 1 => {
                 let x = self.fresh();
@@ -956,6 +956,50 @@ impl Gen {
                     false,
                 );
                 Expr::Seq(vec![Expr::Declare(Pat::Ident(c.clone()), b(Expr::Int(0))), Expr::While(b(cond), b(body))], true)
+            }
+            32 if d > 0 => {
+                // order of evaluation of a call: the callee expression first, then the arguments left to
+                // right.  Visible when an argument reassigns the variable the callee reads, when callee and
+                // argument both print, and when the callee raises before any argument runs
+                self.feat("call-order");
+                let (h1, h2, hit) = (self.fresh(), self.fresh(), self.fresh());
+                let (p1, p2) = (self.fresh(), self.fresh());
+                let k = self.small_int();
+                let lam1 = Expr::Lambda(vec![Param { name: p1.clone(), dflt: None, splat: false, ann: None }], b(Expr::Op("+".into(), b(Expr::Ident(p1)), b(Expr::Int(1)))));
+                let lam2 = Expr::Lambda(vec![Param { name: p2.clone(), dflt: None, splat: false, ann: None }], b(Expr::Op("*".into(), b(Expr::Ident(p2)), b(Expr::Int(100)))));
+                self.declare(&h1, Ty::Fun1);
+                self.declare(&h2, Ty::Fun1);
+                self.declare(&hit, Ty::Int);
+                self.readonly.insert(h1.clone());
+                self.readonly.insert(h2.clone());
+                let pr = |e: Expr| Expr::Call(b(Expr::Ident("print".into())), vec![e]);
+                // h1((h1 = h2; k)) calls the OLD h1
+                let arg_reassigns = Expr::Call(b(Expr::Ident(h1.clone())), vec![Expr::Seq(vec![Expr::Assign(h1.clone(), b(Expr::Ident(h2.clone()))), Expr::Int(k)], false)]);
+                // ((print("c"); h2))((print("a"); k)): callee prints first
+                let both_print = Expr::Call(
+                    b(Expr::Seq(vec![pr(Expr::Str("c".into())), Expr::Ident(h2.clone())], false)),
+                    vec![Expr::Seq(vec![pr(Expr::Str("a".into())), Expr::Int(k)], false)],
+                );
+                // an undeclared callee raises before the argument assigns
+                let callee_raises = Expr::Try(
+                    b(Expr::Call(b(Expr::Ident("undeclared_fn".into())), vec![Expr::Seq(vec![Expr::Assign(hit.clone(), b(Expr::Int(1))), Expr::Int(2)], false)])),
+                    Pat::Underscore,
+                    b(Expr::Null),
+                );
+                Expr::Seq(
+                    vec![
+                        Expr::Declare(Pat::Ident(h1.clone()), b(lam1)),
+                        Expr::Declare(Pat::Ident(h2.clone()), b(lam2)),
+                        Expr::Declare(Pat::Ident(hit.clone()), b(Expr::Int(0))),
+                        pr(arg_reassigns),
+                        pr(Expr::Call(b(Expr::Ident(h1.clone())), vec![Expr::Int(k)])),
+                        pr(both_print),
+                        // (an unbound name makes `freeze` itself fail: not inside frozen code)
+                        if self.no_self_shadow { Expr::Null } else { callee_raises },
+                        pr(Expr::Ident(hit.clone())),
+                    ],
+                    true,
+                )
             }
             31 if d > 0 => {
                 // a local recursive function: f := \n -> if (n <= 0 or n > 6) base else n + f(n - 1)
